@@ -31,6 +31,31 @@ CORPUS = [
 ]
 
 
+def _toplevel(x):
+    return ("toplevel", 1, x)
+
+
+def toplevel_pair():
+    """A top-level function of the running main module, then re-defined under the same name with another body (an
+    edited script / re-executed notebook cell): the two calls differ in the function and must not share a key."""
+    import sys
+    from executorlib.standalone.serialize import serialize_funct_h5
+
+    mod = sys.modules[_toplevel.__module__]
+    first = mod._toplevel
+    k1, _ = serialize_funct_h5(first, fn_args=[3], fn_kwargs={}, resource_dict={})
+    g = {"__name__": mod.__name__}
+    exec("def _toplevel(x):\n    return ('toplevel', 2, x * 100)\n", g)
+    second = g["_toplevel"]
+    second.__module__ = mod.__name__
+    mod._toplevel = second
+    try:
+        k2, _ = serialize_funct_h5(second, fn_args=[3], fn_kwargs={}, resource_dict={})
+    finally:
+        mod._toplevel = first
+    return k1, k2
+
+
 def gen_bytes(rng):
     return b"".join(rng.choice(PIECES) for _ in range(rng.choice([1, 2, 3, 5, 8, 12])))
 
@@ -125,6 +150,12 @@ def body(ctx: Ctx):
                                    "digits of a /ipykernel_<digits>/ segment is ignored, or not all of them", **diffs[0]})
     if replay is None:
         bad = key_pairs(ctx)
+        k1, k2 = toplevel_pair()
+        ctx.case({"pair": "toplevel_function_redefined"}, nontrivial=True)
+        ctx.count("pair.toplevel_function_redefined")
+        if k1 == k2:
+            bad.append({"kind": "toplevel_function_redefined", "key_a": k1, "key_b": k2,
+                        "a": "def _toplevel(x): return ('toplevel', 1, x)", "b": "def _toplevel(x): return ('toplevel', 2, x * 100)"})
         ctx.oblige("keys: identical calls share a key, calls differing in function / args / kwargs / resources do not "
                    "(kernel-id digits excepted)", not bad)
         if bad:
